@@ -1,9 +1,9 @@
 package main
 
 import (
-	"encoding/json"
 	"bytes"
 	"encoding/gob"
+	"encoding/json"
 	"fmt"
 	"os"
 	"strings"
@@ -21,11 +21,11 @@ func init() { runners["C03"] = runC03 }
 type C03Case struct {
 	PairCase
 	Optimized bool   `json:"optimized"`
-	Bowl      string `json:"bowl"` // fresh | overlay
-	K         int    `json:"k"`    // checkpoint index to resume from (mod number offered)
-	Lag       int    `json:"lag"`  // how many more checkpoints the first run reaches before it stops
+	Bowl      string `json:"bowl"`     // fresh | overlay
+	K         int    `json:"k"`        // checkpoint index to resume from (mod number offered)
+	Lag       int    `json:"lag"`      // how many more checkpoints the first run reaches before it stops
 	Truncate  int    `json:"truncate"` // 0: leave disk as is; 1: cut in-progress outputs back (never below the checkpointed offset)
-	Chain     int    `json:"chain"` // further interruptions after the first resume
+	Chain     int    `json:"chain"`    // further interruptions after the first resume
 }
 
 // recSaver records serialised checkpoints; stops after `stopAt` saves (-1: never).
